@@ -1,0 +1,24 @@
+//go:build verif
+
+package types
+
+import "github.com/ethereum/go-ethereum/common"
+
+// VerifSnapshotView (verification hook, build tag "verif" only) evaluates the
+// unexported snapshot.validators() and snapshot.inturn() on a snapshot built
+// from the given validator list, so that the harness can compare their results
+// with the model. It changes nothing.
+func VerifSnapshotView(validators [][]byte, number uint64, who []byte) (sorted [][]byte, inturn bool) {
+	snap := &snapshot{
+		Number:     number,
+		Validators: make(map[common.Address]struct{}, len(validators)),
+		Recents:    make(map[uint64]common.Address),
+	}
+	for _, v := range validators {
+		snap.Validators[common.BytesToAddress(v)] = struct{}{}
+	}
+	for _, a := range snap.validators() {
+		sorted = append(sorted, append([]byte{}, a.Bytes()...))
+	}
+	return sorted, snap.inturn(common.BytesToAddress(who))
+}
